@@ -247,7 +247,7 @@ def gen_regex_cases(ctx):
     lines = []
     strs = all_strings(4)
     n = 2500 if ctx.thorough() else 260
-    seen = set()
+    seen = set(); seen_rpn = {}
     for _ in range(n):
         x, rpn, _ = gen_re(r, 1 + r.below(4))
         if x in seen: continue
@@ -256,7 +256,7 @@ def gen_regex_cases(ctx):
             # backtracking matcher); the fixed witness (b*)*c below keeps it under observation
             ctx.stats["hazard_patterns_skipped"] = ctx.stats.get("hazard_patterns_skipped", 0) + 1
             continue
-        seen.add(x)
+        seen.add(x); seen_rpn[x] = rpn
         ss = strs if len(seen) % 3 == 0 or ctx.thorough() else [s for s in strs if len(s) <= 3]
         for s in ss:
             lines.append(("M %s %s" % (hexs(x), hexs(s)), "M %s %s" % (rpn, hexs(s)), x, s))
@@ -266,6 +266,43 @@ def gen_regex_cases(ctx):
     for x, rpn in FIXED_RE:
         for s in FIXED_STR:
             lines.append(("M %s %s" % (hexs(x), hexs(s)), "M %s %s" % (rpn, hexs(s)), x, s))
+    # XPath-flavoured (non-schema) mode: matches() is an unanchored search; the answer must not depend on the
+    # optimisation options (F = no fixed-string/Boyer-Moore prefilter, H = no head-character prefilter).
+    ANY = "c:0-10ffff,*"
+    GREEK = {"a": "\u03b1", "b": "\u03b2", "c": "1", "x": "x"}
+    nsearch = 0
+    for x in list(seen):
+        if "-[" in x or nsearch >= (400 if ctx.thorough() else 60):
+            continue
+        rpn = seen_rpn[x]
+        variants = [(x, rpn, None)]
+        if "[" not in x and "." not in x:
+            gx = "".join(GREEK.get(ch, ch) for ch in x)
+            def gtok(t):
+                if t.startswith("c:"):
+                    ch = chr(int(t[2:].split("-")[0], 16))
+                    if ch in GREEK:
+                        return "c:%x-%x" % (ord(GREEK[ch]), ord(GREEK[ch]))
+                return t
+            grpn = ",".join(gtok(t) for t in rpn.split(","))
+            variants.append((gx, grpn, GREEK))
+        nsearch += 1
+        for vx, vrpn, mp in variants:
+            srpn = ANY + "," + vrpn + ",.," + ANY + ",."
+            ss = [s for s in strs if len(s) <= 3] + ["".join(r.choice("abcx") for _ in range(r.choice([5, 6, 12]))) for _ in range(6)]
+            for s in ss:
+                vs = "".join(mp.get(ch, ch) for ch in s) if mp else s
+                for opt in ("-", "F", "H", "FH"):
+                    lines.append(("M %s %s %s" % (hexs(vx), hexs(vs), opt), "M %s %s" % (srpn, hexs(vs)), vx + " /" + opt, vs))
+    for lit in ["\u03b1\u03b2", "[0-9]+\u03b1\u03b2", "x?\u03b2\u03b11", "\u03b1\u03b2[x1]", "ab", "abc", "b+abc"]:
+        lrpn = {"\u03b1\u03b2": "c:3b1-3b1,c:3b2-3b2,.", "[0-9]+\u03b1\u03b2": "c:30-39,+,c:3b1-3b1,.,c:3b2-3b2,.",
+                "x?\u03b2\u03b11": "c:78-78,?,c:3b2-3b2,.,c:3b1-3b1,.,c:31-31,.", "\u03b1\u03b2[x1]": "c:3b1-3b1,c:3b2-3b2,.,c:31-31.78-78,.",
+                "ab": "c:61-61,c:62-62,.", "abc": "c:61-61,c:62-62,.,c:63-63,.", "b+abc": "c:62-62,+,c:61-61,.,c:62-62,.,c:63-63,."}[lit]
+        alpha = "1x\u03b1\u03b2" if "\u03b1" in lit else "abcx"
+        srpn = ANY + "," + lrpn + ",.," + ANY + ",."
+        for s in all_strings(5 if ctx.thorough() else 4, alpha):
+            for opt in ("-", "F", "H", "FH"):
+                lines.append(("M %s %s %s" % (hexs(lit), hexs(s), opt), "M %s %s" % (srpn, hexs(s)), lit + " /" + opt, s))
     return lines, len(seen) + len(FIXED_RE)
 
 def run_regex(ctx):
